@@ -31,6 +31,19 @@ for d in names:
 subprocess.run(["git", "-C", "/repo", "checkout", "--", "."], check=True)
 subprocess.run([ROOT + "/harness/build.sh"])
 subprocess.run([ROOT + "/harness/build.sh", "race"])
+if only:
+    # keep the rows of the seeds that were not re-run
+    old = {}
+    try:
+        for l in open(ROOT + "/seeded/RESULTS.md"):
+            m = re.match(r"\| (C\d\d\w) \| (C\d\d) \| ([^|]*) \| (.*) \| (\d+) \|$", l.strip())
+            if m:
+                old[m.group(1)] = (m.group(1), m.group(2), m.group(3).strip(), m.group(4).replace("\\|", "|"), float(m.group(5)))
+    except OSError:
+        pass
+    for r in rows:
+        old[r[0]] = r
+    rows = [old[k] for k in sorted(old) if os.path.isdir(ROOT + "/seeded/" + k)]
 with open(ROOT + "/seeded/RESULTS.md", "w") as f:
     f.write("# Seeded changes vs checks\n\nEach change under seeded/<id>/ (patch.diff, demonstration, meta.json) compiles and keeps the repository's suite green; it was applied to /repo, "
             "the quick check of its property was run, and the change was undone. Produced by tools/seed_matrix.py.\n\n| seed | property | quick check | first report | s |\n|---|---|---|---|---|\n")
